@@ -1,7 +1,7 @@
 //go:build verif
 
 // Accessors for the C11 harness (vh_tracekey). Unexported names touched:
-// maxKeyLength, newTraceKey, traceKey.build, distinctValue (Reset/AddAsString/Values),
+// maxKeyLength, newTraceKey, traceKey.build,
 // the five samplers' `dynsampler` fields and createDynForDynamicSampler.
 package sample
 
@@ -22,18 +22,6 @@ func VerifTKMaxKeyLength() int { return maxKeyLength }
 // sampler reuses it).
 func VerifTKNew(fields []string, useTraceLength bool) func(*types.Trace) (string, int) {
 	return newTraceKey(fields, useTraceLength).build
-}
-
-// VerifTKAsString is the rendering of a value by the real distinctValue.AddAsString.
-func VerifTKAsString(v any) (string, bool) {
-	d := &distinctValue{}
-	d.Reset([]string{"f"}, 1<<30)
-	d.AddAsString(v, 0)
-	vals := d.Values(0)
-	if len(vals) != 1 {
-		return "", false
-	}
-	return vals[0], true
 }
 
 // VerifTKDyn wraps the dynsampler of a DynamicSampler (the only one held through the interface):
